@@ -7,7 +7,7 @@ each listed in the evidence.  The only line dropped from an extracted body is th
 """
 import os
 import re
-from rustcut import Source, AnchorLost
+from rustcut import Source, AnchorLost, split_items
 
 STANDINS = r'''
 // ======================= stand-ins (dependency / glue abstractions; NOT glas code) =======================
@@ -100,13 +100,52 @@ def cut_fn(src, owner_range, name, depth):
     return src.text[s0:c + 1], src.line_of(s)
 
 
+def fn_names_in(src, lo, hi, depth):
+    """names of all fn items at brace depth `depth` inside [lo, hi)"""
+    names = []
+    pos = lo
+    rx = r'^[ \t]*(?:pub(?:\([a-z]+\))?\s+)?(?:const\s+)?fn\s+([A-Za-z_][A-Za-z0-9_]*)'
+    while True:
+        mm = src.find_header(rx, depth, pos, hi)
+        if not mm:
+            return names
+        names.append(mm.group(1))
+        pos = mm.end()
+
+
+def closure(roots, available, body_of, method_of=None):
+    """roots plus every available function that an included body calls: free functions as `name(` (not as a
+    method or path segment), methods as `self.name(` / `Self::name(` / `<Type>::name(`"""
+    want = list(roots)
+    i = 0
+    while i < len(want):
+        body = body_of(want[i])
+        for nm in available:
+            if nm in want:
+                continue
+            if method_of:
+                rx = r'(?:self\s*\.\s*|Self::|%s::)%s\s*\(' % (re.escape(method_of), re.escape(nm))
+            else:
+                rx = r'(?<![A-Za-z0-9_.:])%s\s*\(' % re.escape(nm)
+            if re.search(rx, body):
+                want.append(nm)
+        i += 1
+    return want
+
+
+VFS_EXCLUDE = (r'^use\b', r'^(pub\s+)?struct\s+Vfs\b', r'^impl\s+fmt::Debug\s+for\s+Vfs\b', r'^impl\s+Vfs\b',
+               r'^(#\[cfg\(test\)\]\s*)?mod\s+tests\b', r'^impl\s+Default\s+for\s+Vfs\b')
+VFS_ROOTS = ('change_file_content', 'content_for_file', 'line_map_for_file')
+CONVERT_ROOTS = ('from_pos', 'from_range', 'to_range', 'to_semantic_tokens')
+
+
 def extract(repo):
     g = os.path.join(repo, 'crates/glas/src')
     vfs = Source(os.path.join(g, 'vfs.rs'))
     conv = Source(os.path.join(g, 'convert.rs'))
     sem = Source(os.path.join(g, 'semantic_tokens.rs'))
     hl = Source(os.path.join(repo, 'crates/ide/src/ide/semantic_highlighting.rs'))
-    parts = []     # (text, repo path, line, name)
+    parts = []     # (text or None, repo path, line, name)
     dropped = []
 
     # semantic_tokens.rs: everything except its `use` lines, inside `mod semantic_tokens`
@@ -119,17 +158,36 @@ def extract(repo):
         s0 = hl.attrs_start(s)
         parts.append((hl.text[s0:c + 1] + '\n', 'crates/ide/src/ide/semantic_highlighting.rs', hl.line_of(s), nm))
 
-    # LineMap, CodeUnitsDiff, impl LineMap
-    for nm, pat in (('LineMap', r'^pub struct LineMap\b'), ('CodeUnitsDiff', r'^enum CodeUnitsDiff\b'), ('impl LineMap', r'^impl LineMap\b')):
-        s, o, c = vfs.cut_braced(pat, 0)
-        s0 = vfs.attrs_start(s)
-        parts.append((vfs.text[s0:c + 1] + '\n', 'crates/glas/src/vfs.rs', vfs.line_of(s), nm))
+    # vfs.rs: EVERY top-level item except the Vfs struct / its impls, the `use` lines and the test module -
+    # i.e. LineMap, CodeUnitsDiff, their impls and whatever helper items live next to them
+    seen = set()
+    for a, b, header in split_items(vfs):
+        h = ' '.join(re.sub(r'#\[[^\]]*\]', ' ', header).split())
+        if any(re.search(p, h) or re.search(p, ' '.join(header.split())) for p in VFS_EXCLUDE):
+            continue
+        chunk = vfs.text[a:b].strip('\n')
+        line = vfs.line_of(a + (len(vfs.text[a:b]) - len(vfs.text[a:b].lstrip())))
+        parts.append((chunk + '\n', 'crates/glas/src/vfs.rs', line, h[:60]))
+        seen.add(h)
+    for must in ('struct LineMap', 'enum CodeUnitsDiff', 'impl LineMap'):
+        if not any(must in h for h in seen):
+            raise AnchorLost('vfs.rs: item `%s` not found' % must)
 
-    # Vfs methods
+    # Vfs methods: the three under check plus every other method of `impl Vfs` they call
     s, o, c = vfs.cut_braced(r'^impl Vfs\b', 0)
+    avail = fn_names_in(vfs, o + 1, c, 1)
+    for r in VFS_ROOTS:
+        if r not in avail:
+            raise AnchorLost('vfs.rs: Vfs::%s not found' % r)
+    texts = {}
+
+    def vfs_body(nm):
+        if nm not in texts:
+            texts[nm] = cut_fn(vfs, (o + 1, c), nm, 1)
+        return texts[nm][0]
     methods = []
-    for nm in ('change_file_content', 'content_for_file', 'line_map_for_file'):
-        t, line = cut_fn(vfs, (o + 1, c), nm, 1)
+    for nm in closure(VFS_ROOTS, avail, vfs_body, 'Vfs'):
+        t, line = texts[nm] if nm in texts else cut_fn(vfs, (o + 1, c), nm, 1)
         if nm == 'change_file_content':
             t2 = re.sub(r'^[ \t]*log::trace!\([^;]*\);\n', '', t, flags=re.M)
             if t2 != t:
@@ -137,11 +195,21 @@ def extract(repo):
             t = t2
         methods.append(t)
         parts.append((None, 'crates/glas/src/vfs.rs', line, 'Vfs::' + nm))
-    parts.append(('impl Vfs {\n' + '\n\n'.join(methods) + '\n}\n', 'crates/glas/src/vfs.rs', vfs.line_of(s), 'impl Vfs (3 methods)'))
+    parts.append(('impl Vfs {\n' + '\n\n'.join(methods) + '\n}\n', 'crates/glas/src/vfs.rs', vfs.line_of(s), 'impl Vfs (methods under check)'))
 
-    # convert.rs free functions
-    for nm in ('from_pos', 'from_range', 'to_range', 'to_semantic_tokens'):
-        t, line = cut_fn(conv, (0, len(conv.text)), nm, 0)
+    # convert.rs: the four functions plus every other free function of the file they call
+    avail = fn_names_in(conv, 0, len(conv.text), 0)
+    for r in CONVERT_ROOTS:
+        if r not in avail:
+            raise AnchorLost('convert.rs: %s not found' % r)
+    ctexts = {}
+
+    def conv_body(nm):
+        if nm not in ctexts:
+            ctexts[nm] = cut_fn(conv, (0, len(conv.text)), nm, 0)
+        return ctexts[nm][0]
+    for nm in closure(CONVERT_ROOTS, avail, conv_body):
+        t, line = ctexts[nm] if nm in ctexts else cut_fn(conv, (0, len(conv.text)), nm, 0)
         parts.append((t + '\n', 'crates/glas/src/convert.rs', line, 'convert::' + nm))
 
     text = STANDINS + '\n// ======================= extracted verbatim from the working tree =======================\n'
